@@ -290,4 +290,7 @@ theorem parseDoc_of_pValue (b : UInt8) (t : Bytes) (v : JV) (h1 : b ≠ 0xEF) (h
   simp only [Spec.parseDoc, stripBOM_of_ne b t h1, Spec.parseText, Spec.skipWs, h2]
   simp [hp', Spec.skipWs]
 
+theorem accepts_of_one (bs : Bytes) (v : JV) (h : Spec.parseDoc bs = .one v) : Spec.accepts bs = true := by
+  simp [Spec.accepts, h]
+
 end OjgVerif.Writer
